@@ -26,7 +26,7 @@ every emitted response must parse with M-HTTP (status line, registered code with
 no framing header twice, no header line (with a name rws is not known to emit) whose text comes from a request header value (reflected text cannot add or split lines). \
 section transport: a pool of requests x write scripts (every chunk size 1..64 and 100/1000/4096, a two-chunk boundary at every byte offset of the head, random chunk sequences, Ok(0), write error after k bytes, flush error); \
 oracle = bytes accepted by the transport equal the response produced on an unlimited transport modulo the timestamp value (prefix for write errors), and no panic. \
-section transport-binary: the release binary over loopback with a client that reads slowly (default or 64-256 KiB receive buffer - smaller ones make loopback TCP itself stall on window updates -, reads of 1..65536 bytes and pauses for the first 2000 reads) - full 3 MiB bodies, single ranges, up to 1500-part multipart responses; the bytes that arrive must equal the in-process response modulo the timestamp. \
+section paused-reader: a client that stops reading for 16 s (thorough: up to 91 s) after the head of a 32 MiB response and must still get all of it. section transport-binary: the release binary over loopback with a client that reads slowly (default or 64-256 KiB receive buffer - smaller ones make loopback TCP itself stall on window updates -, reads of 1..65536 bytes and pauses for the first 2000 reads) - full 3 MiB bodies, single ranges, up to 1500-part multipart responses; the bytes that arrive must equal the in-process response modulo the timestamp. \
 Non-trivial = error-path response, HEAD/OPTIONS, reflected hostile value, or a short-write pattern with >= 2 chunks; distinct by case.",
         &["control characters other than CR/LF echoed inside a header value are recorded as a note, not a violation", "a non-zero Content-Length on a bodiless (HEAD/OPTIONS/204) response is judged by the no-body rule only"],
         if tier == Tier::Quick { 900 } else { 14400 },
@@ -227,6 +227,40 @@ pub fn eval_net(ctx: &Ctx, srv: &crate::fw::net::Server, c: &NetCase) -> Verdict
     ctx.judge(problems, full.len() > 65536, classes)
 }
 
+/// Ok(None): the whole body arrived. Ok(Some(detail)): the connection ended early. Err: the probe itself could not be carried out.
+pub fn paused_reader_probe(pause_s: u64) -> Result<Option<String>, String> {
+    use std::io::{Read, Write};
+    let dir = crate::fw::scratch_base().join(format!("rwsv-c05-paused-{}-{}", std::process::id(), pause_s));
+    let _ = std::fs::remove_dir_all(&dir);
+    std::fs::create_dir_all(&dir).map_err(|e| e.to_string())?;
+    let size: u64 = 32 << 20;
+    std::fs::File::create(dir.join("giant.bin")).and_then(|f| f.set_len(size)).map_err(|e| e.to_string())?;
+    let result = (|| {
+        let srv = crate::fw::net::Server::start(&crate::fw::net::ServerOpts::new(&dir, 1)).map_err(|e| format!("server start: {}", e))?;
+        let mut s = srv.connect().map_err(|e| format!("connect: {}", e))?;
+        s.write_all(b"GET /giant.bin HTTP/1.1\r\nHost: localhost\r\n\r\n").map_err(|e| e.to_string())?;
+        let mut got: Vec<u8> = Vec::with_capacity(1 << 20);
+        let mut buf = vec![0u8; 65536];
+        s.set_read_timeout(Some(std::time::Duration::from_secs(20))).ok();
+        // the head and a little of the body
+        while crate::fw::util::find_sub(&got, b"\r\n\r\n").is_none() { match s.read(&mut buf[..4096]) { Ok(0) => return Err("connection closed before the head was complete".to_string()), Ok(n) => got.extend_from_slice(&buf[..n]), Err(e) => return Err(format!("reading the head: {}", e)) } }
+        let head_end = crate::fw::util::find_sub(&got, b"\r\n\r\n").unwrap() + 4;
+        let head = String::from_utf8_lossy(&got[..head_end]).to_string();
+        let declared: u64 = head.lines().find_map(|l| l.strip_prefix("Content-Length: ")).and_then(|v| v.trim().parse().ok()).ok_or_else(|| format!("no Content-Length in {:?}", head))?;
+        std::thread::sleep(std::time::Duration::from_secs(pause_s));
+        let mut body = (got.len() - head_end) as u64;
+        let deadline = std::time::Instant::now() + std::time::Duration::from_secs(90);
+        let ended = loop {
+            if std::time::Instant::now() > deadline { return Err(format!("the rest did not arrive within 90 s after the pause ({} of {} body bytes)", body, declared)); }
+            match s.read(&mut buf) { Ok(0) => break "closed".to_string(), Ok(n) => body += n as u64, Err(e) if e.kind() == std::io::ErrorKind::Interrupted => continue, Err(e) if e.kind() == std::io::ErrorKind::WouldBlock || e.kind() == std::io::ErrorKind::TimedOut => return Err(format!("no data for 20 s after the pause ({} of {} body bytes)", body, declared)), Err(e) => break format!("reset ({})", e) }
+        };
+        if declared != size { return Ok(Some(format!("Content-Length {} for a {}-byte file", declared, size))); }
+        Ok(if body == declared { None } else { Some(format!("{} of {} body bytes arrived, then the connection was {}", body, declared, ended)) })
+    })();
+    let _ = std::fs::remove_dir_all(&dir);
+    result
+}
+
 pub fn run(ctx: &Ctx) {
     crate::fw::inproc::init_env();
     let _tree = match fixed_docroot() { Ok(t) => t, Err(e) => { ctx.inconclusive(&format!("docroot: {}", e)); return; } };
@@ -251,9 +285,22 @@ pub fn run(ctx: &Ctx) {
             }
         }
     }
+    // a reader that stops reading for a long while in the middle of a response far larger than the socket buffers (32 MiB, a sparse file): the rest must
+    // still arrive. One probe per native worker beside the other cases (quick: 16 s on worker 0; thorough: 16 / 31 / 61 / 91 s on workers 0..3)
+    let pause_s: Option<u64> = if ctx.tier == Tier::Thorough { [16u64, 31, 61, 91].get(ctx.worker as usize).copied() } else if ctx.worker == 0 { Some(16) } else { None };
+    let probe = pause_s.map(|p| std::thread::spawn(move || (p, paused_reader_probe(p))));
     match crate::fw::net::Server::start(&crate::fw::net::ServerOpts::new(&_tree.root, 2)) {
         Err(e) => ctx.inconclusive(&format!("real binary did not start: {}", e)),
         Ok(srv) => ctx.prop("transport-binary", ctx.share(ctx.scale(160, 6000)), net_case_strategy(), |c| eval_net(ctx, &srv, c)),
+    }
+    if let Some(h) = probe {
+        ctx.set_section("paused-reader");
+        match h.join() {
+            Ok((p, Ok(None))) => { let v = Verdict::passc(true, vec!["reader-paused-for-many-seconds-mid-response"]); ctx.count(&v, crate::fw::hash64(&("paused-reader", p)), || serde_json::json!({"pause_s": p})); }
+            Ok((p, Ok(Some(detail)))) => { let v = ctx.judge(vec![("response-not-delivered-in-full".to_string(), format!("reader paused for {} s after the head of a 32 MiB response: {}", p, detail))], true, vec!["reader-paused-for-many-seconds-mid-response"]); ctx.count(&v, crate::fw::hash64(&("paused-reader", p)), || serde_json::json!({"pause_s": p})); }
+            Ok((_, Err(e))) => ctx.inconclusive(&format!("paused-reader probe: {}", e)),
+            Err(_) => ctx.inconclusive("paused-reader probe thread panicked"),
+        }
     }
     std::env::set_current_dir("/").ok();
 }
